@@ -72,6 +72,23 @@ Qed.
 Lemma dict_override_nil : forall d, dict_override d [] = d.
 Proof. reflexivity. Qed.
 
+(* dropping the keys of another dictionary *)
+Lemma dict_get_without : forall k d other,
+  dict_get k (dict_without d other) = match dict_get k other with Some _ => None | None => dict_get k d end.
+Proof.
+  intros k d other. unfold dict_without. induction d as [|[k1 v1] t IH]; cbn [filter fst dict_get].
+  - destruct (dict_get k other); reflexivity.
+  - destruct (String.eqb_spec k k1).
+    + subst k1. destruct (dict_get k other) eqn:E; cbn [dict_get].
+      * rewrite IH. reflexivity.
+      * rewrite String.eqb_refl. reflexivity.
+    + destruct (dict_get k1 other); cbn [dict_get]; [exact IH|].
+      destruct (String.eqb_spec k k1); [congruence|exact IH].
+Qed.
+
+Lemma dict_of_opt_norm : forall d : dict, dict_of_opt (match d with [] => None | _ => Some d end) = d.
+Proof. intros [|p t]; reflexivity. Qed.
+
 (* ------------------------------------------------------------------ the table of appendReplaceOrMerge *)
 
 (* premises read from the generated table: editing the switch in reswrangler.go changes these facts *)
@@ -157,17 +174,17 @@ Proof.
   rewrite Hc. cbn [bind fst snd]. rewrite Nat.eqb_refl. reflexivity.
 Qed.
 
-(* what merge does to the entries *)
+(* what merge does to the entries: the overlay's entry wins; an old entry survives unless the overlay defines the
+   key in either map *)
 Lemma merge_data_get : forall r old k,
   dict_get k (dict_of_opt (g_data (merge_data (copy_merge_meta r old) old))) =
   match dict_get k (rev (dict_of_opt (g_data r))) with
   | Some v => Some v
-  | None => dict_get k (dict_of_opt (g_data old))
+  | None => match dict_get k (g_bin r) with Some _ => None | None => dict_get k (dict_of_opt (g_data old)) end
   end.
 Proof.
-  intros r old k. cbn [merge_data copy_merge_meta g_data].
-  rewrite <- dict_get_override.
-  destruct (dict_override (dict_of_opt (g_data old)) (dict_of_opt (g_data r))); reflexivity.
+  intros r old k. cbn [merge_data copy_merge_meta g_data g_bin].
+  rewrite dict_of_opt_norm, dict_get_override, dict_get_without. reflexivity.
 Qed.
 
 (* ------------------------------------------------------------------ chains declaring one generated object *)
@@ -411,10 +428,11 @@ Qed.
 
 Definition data_of (o : gobj) : option dict * dict := (g_data o, g_bin o).
 
-(* merge of two declared maps: entry-wise override, the overlay wins; an empty data map is no data field *)
+(* merge of two declared objects: ONE dictionary per object — the overlay's entry wins and takes the key out of the
+   other map of the old object; an empty data map is no data field *)
 Definition merge_dd (old new : option dict * dict) : option dict * dict :=
-  let d := dict_override (dict_of_opt (fst old)) (dict_of_opt (fst new)) in
-  (match d with [] => None | _ => Some d end, dict_override (snd old) (snd new)).
+  let d := dict_override (dict_without (dict_of_opt (fst old)) (snd new)) (dict_of_opt (fst new)) in
+  (match d with [] => None | _ => Some d end, dict_override (dict_without (snd old) d) (snd new)).
 
 (* one declaration against the dictionary accumulated so far (None: the object does not exist yet) *)
 Definition dstep (st : option (option dict * dict)) (b : behavior) (new : option dict * dict)
@@ -494,23 +512,22 @@ Proof.
   rewrite map_opt_list. reflexivity.
 Qed.
 
-(* the entries of a merged dictionary *)
+(* the entries of a merged object *)
 Lemma merge_dd_get : forall old new k,
   dict_get k (dict_of_opt (fst (merge_dd old new))) =
   match dict_get k (rev (dict_of_opt (fst new))) with
   | Some v => Some v
-  | None => dict_get k (dict_of_opt (fst old))
+  | None => match dict_get k (snd new) with Some _ => None | None => dict_get k (dict_of_opt (fst old)) end
   end /\
   dict_get k (snd (merge_dd old new)) =
   match dict_get k (rev (snd new)) with
   | Some v => Some v
-  | None => dict_get k (snd old)
+  | None => match dict_get k (dict_of_opt (fst (merge_dd old new))) with Some _ => None | None => dict_get k (snd old) end
   end.
 Proof.
-  intros old new k. unfold merge_dd. cbn [fst snd]. split.
-  - rewrite <- dict_get_override.
-    destruct (dict_override (dict_of_opt (fst old)) (dict_of_opt (fst new))); reflexivity.
-  - apply dict_get_override.
+  intros old new k. unfold merge_dd. cbn [fst snd]. rewrite dict_of_opt_norm. split.
+  - rewrite dict_get_override, dict_get_without. reflexivity.
+  - rewrite dict_get_override, dict_get_without. reflexivity.
 Qed.
 
 (* ------------------------------------------------------------------ the name suffix of a build *)
@@ -545,7 +562,9 @@ Theorem build_name_is_hash : forall l out,
 Proof.
   intros l out H. unfold build in H. destruct (accumulate l) as [rm| | |]; try discriminate. cbn [bind] in H.
   exists rm. split; [reflexivity|].
-  apply mapM_Forall2 in H. induction H; constructor; auto. apply add_hash_spec. assumption.
+  destruct (mapM add_hash rm) as [out'| | |] eqn:Em; cbn [bind] in H; try discriminate.
+  destruct (hash_ids_unique out'); [|discriminate]. inversion H. subst out'.
+  apply mapM_Forall2 in Em. induction Em; constructor; auto. apply add_hash_spec. assumption.
 Qed.
 
 (* the two theorems together, for a chain: the suffix is the hash of the content whose data is the dictionary fold *)
@@ -780,22 +799,31 @@ Example ambiguous_example :
                (ld [] [ga "cfg" "merge" ["b=1"] []] "" "" "")) = Err.
 Proof. vm_compute. reflexivity. Qed.
 
-(* finding merge-key-in-data-and-binaryData: merge keeps the overridden entry of the other map *)
+(* regression (was the witness of merge-key-in-data-and-binaryData until the repair 0a87769 of MergeDataMapFrom /
+   MergeBinaryDataMapFrom): a text value merged over a binary one leaves the key in data only *)
 Definition stale_tree : layer :=
   Layer [Layer [] (ld [("bin.dat", sb [255; 254]%N)] [ga "cfg" "" [] ["k=bin.dat"]] "" "" "")]
         (ld [] [ga "cfg" "merge" ["k=text"] []] "" "" "").
 
-Lemma keys_disjoint_refuted :
+Example keys_disjoint_regression :
   exists o, build stale_tree = Ok [o] /\
-            dict_get "k" (dict_of_opt (g_data o)) = Some "text" /\ dict_get "k" (g_bin o) = Some "//4=".
-Proof. eexists. vm_compute. repeat split. Qed.
+            dict_get "k" (dict_of_opt (g_data o)) = Some "text" /\ dict_get "k" (g_bin o) = None.
+Proof. eexists. split; [vm_compute; reflexivity|]. vm_compute. split; reflexivity. Qed.
 
-(* finding hash-yaml-roundtrip-leading-tab: a well-formed declaration that cannot be built *)
+(* regression (was the witness of hash-yaml-roundtrip-leading-tab until the repair baa93c5): a file starting with a TAB, two lines, builds *)
 Definition tab_tree : layer :=
   Layer [] (ld [("f.txt", sb [9; 120; 10; 121]%N)] [ga "cfg" "" [] ["k=f.txt"]] "" "" "").
 
+Example leading_tab_regression :
+  exists o, build tab_tree = Ok [o] /\ g_data o = Some [("k", sb [9; 120; 10; 121]%N)] /\ g_name o = "cfg-k2mh79m426".
+Proof. eexists. split; [vm_compute; reflexivity|]. vm_compute. split; reflexivity. Qed.
+
+(* finding hash-yaml-roundtrip-merge-key: a well-formed declaration that cannot be built *)
+Definition merge_key_tree : layer :=
+  Layer [] (ld [] [ga "cfg" "" ["<<=v"] []] "" "" "").
+
 Lemma build_total_refuted :
-  (exists o, accumulate tab_tree = Ok [o] /\ g_data o = Some [("k", sb [9; 120; 10; 121]%N)]) /\ build tab_tree = Err.
+  (exists o, accumulate merge_key_tree = Ok [o] /\ g_data o = Some [("<<", "v")]) /\ build merge_key_tree = Err.
 Proof. split; [eexists; vm_compute; split; reflexivity|vm_compute; reflexivity]. Qed.
 
 (* finding hash-ignores-null-named-keys: the data changes, the name does not *)
